@@ -173,7 +173,13 @@ func (w *world) buildEvent(e *ev, room string, tsShift int64, extraContent bool)
 	// an invite is also signed by the invited user's server
 	if e.Type == "member" && e.Membership == "invite" && e.F != "nonstate" {
 		if ts := serverOf(userIDs[e.SKey]); ts != origin {
-			p = p.Sign(ts, keyID, serverKeys[ts].priv)
+			// (Sign hands back the embedded older event type for room version 12 events: parse the signed JSON again
+			// to get an event that behaves like one of its room version)
+			signed := p.Sign(ts, keyID, serverKeys[ts].priv)
+			p, err = w.impl.NewEventFromTrustedJSON(signed.JSON(), false)
+			if err != nil {
+				panic(fmt.Sprintf("c14: cannot re-parse the doubly signed event %d: %v", e.ID, err))
+			}
 		}
 	}
 	_ = p.EventID()
@@ -279,7 +285,11 @@ func (w *world) badSignature(e *ev, p gmsl.PDU) []byte {
 // malformed returns bytes that are not a parsable event.
 func (w *world) malformed(p gmsl.PDU) []byte {
 	js := p.JSON()
-	switch w.rng.Intn(5) {
+	n := 5
+	if isDomainless(string(w.ver)) && p.Type() == "m.room.create" {
+		n = 4 // a room_id on a room version 12 create event is not a parse error
+	}
+	switch w.rng.Intn(n) {
 	case 0:
 		w.variants = append(w.variants, "malformed=truncated")
 		return js[:len(js)/2]
